@@ -885,9 +885,16 @@ pub(crate) fn eval_tests(
         // not depend on which tests ran before it.
         env.ticks = 0;
 
+        // A test that calls `set_working_directory` must not change
+        // the directory seen by the tests after it.
+        let working_directory = env.working_directory.clone();
+
         push_test_stackframe(test, env);
 
-        match eval(env, session) {
+        let result = eval(env, session);
+        env.working_directory = working_directory;
+
+        match result {
             Ok(_) => {
                 tests.push((test.name_sym.clone(), None, None));
             }
